@@ -62,7 +62,7 @@ func TestMain(m *testing.M) {
 		evid.Spec{Name: "TestPropIndex", Kind: "rapid", Quick: 60000, Thorough: 800000, QuickShards: 6, ThoroughShards: 16},
 		evid.Spec{Name: "TestPropFourmer", Kind: "rapid", Quick: 20000, Thorough: 600000, QuickShards: 2, ThoroughShards: 8},
 	)
-	evid.Note("rule", "graph: sets of 1..6 (thorough 10) sequences with counts, k = 2..31, built (a) at random over small alphabets with k = 2..4, (b) as edited/truncated variants of a template (all edit kinds, or substitutions only on a repeat-free template with unequal counts: bubbles and dead-end branches), (c) with a duplicated segment, (d) as one sequence whose (k-1)-mers are all distinct, (e) as pieces of length k-1, k, k+1 of a template; plus every single sequence and every ordered pair of short sequences over {a,c,g,t}. Oracle: dictionary of string k-mers -> sum of count x occurrences; edges rebuilt from the k-mer strings; Kahn's algorithm; longest-path DP over the topological order. Non-trivial graph case = the graph has a cycle or a node with two successors or two predecessors. index: reads of 0..400 nt (thorough 1000) with ambiguity codes and n runs, k = 2..64 with Uint64/Uint128/Uint256, dense (even k) and sparse (odd k); oracle: string windows vs their reverse complement; non-trivial = some window is canonical as itself and some other as its reverse complement. 4-mers: 1..3 successive calls sharing buffers, lengths 0..300 biased to 0..5; oracle: naive window enumeration; non-trivial = some 4-mer occurs twice. Distinct = hash of the whole case."+bigRule+cliRule)
+	evid.Note("rule", "graph: sets of 1..6 (thorough 10) sequences with counts, k = 2..31, built (a) at random over small alphabets with k = 2..4, (b) as edited/truncated variants of a template (all edit kinds, or substitutions only on a repeat-free template with unequal counts: bubbles and dead-end branches), (c) with a duplicated segment, (d) as one sequence whose (k-1)-mers are all distinct, (e) as pieces of length k-1, k, k+1 of a template; plus every single sequence and every ordered pair of short sequences over {a,c,g,t}. Oracle: dictionary of string k-mers -> sum of count x occurrences; edges rebuilt from the k-mer strings; Kahn's algorithm; longest-path DP over the topological order. Non-trivial graph case = the graph has a cycle or a node with two successors or two predecessors. index: reads of 0..400 nt (thorough 1000) with ambiguity codes and n runs, k = 2..64 with Uint64/Uint128/Uint256, dense (even k) and sparse (odd k); oracle: string windows vs their reverse complement; non-trivial = some window is canonical as itself and some other as its reverse complement. 4-mers: 1..3 successive calls sharing buffers, lengths 0..300 biased to 0..5; oracle: naive window enumeration; non-trivial = some 4-mer occurs twice. Distinct = hash of the whole case."+bigRule+cliRule+histRule)
 	// NewKmerMap draws a progress bar on os.Stderr
 	if f, err := os.OpenFile(os.DevNull, os.O_WRONLY, 0); err == nil {
 		os.Stderr = f
